@@ -1,5 +1,7 @@
 package PVM
 
+import "math"
+
 // Ω⟨X⟩
 type (
 	Omega  func(OmegaInput) OmegaOutput
@@ -108,7 +110,8 @@ func (h *Host) HostCall(pc ProgramCounter, instrCount uint64) (psi_result Psi_H_
 
 		// reason.Reason == HOST_CALL
 		var input OmegaInput
-		input.Operation = OperationType(exitReason.GetHostCallID())
+		// dispatch on the complete identifier: an id such as 256 must not alias host call 0
+		input.Operation = OperationType(min(exitReason.GetHostCallIndex(), math.MaxInt32))
 		input.VM = &VMState{
 			Registers: &h.Interpreter.Registers,
 			Memory:    h.Interpreter.Memory,
